@@ -234,7 +234,7 @@ __CPROVER_assigns(vf_res, vf_rescap, vf_reslen)
 @@dec@@
 void vf_harness(void) { const char* s; int n; decodeBase64(s, n); VF_CANARY(); }
 ''',
-    entry='decodeBase64', variants={'': ['-DNMAX=100000']}, timeout=600,
+    entry='decodeBase64', variants={'': ['-DNMAX=64']}, timeout=900,
     desc='decodeBase64 on ANY NUL-terminated text: table index in range, every write below capacity, trailing-padding scan stays in the text, terminates, result length non-negative',
     functions=['decodeBase64'], trusted=['strlen (libc) returns the offset of the NUL; ByteArray modelled by the C01 contracts of ctor/clear/data/resize'],
 )
